@@ -171,7 +171,7 @@ def build():
     v.rewrite_re('R6', r'coeffs\.extend\(salts\[mat_idx\]\.iter\(\)\.copied\(\)\);', 'coeffs.extend_from_slice(salts[mat_idx].as_slice());', min_count=1)
     v.rewrite_re('R6', r'circuit\.add_mmcs_verify\(\s*permutation_config,\s*&op_vals_digests,\s*path_bits,\s*&selected_root,\s*\)', 'circuit.add_mmcs_verify(permutation_config, op_vals_digests.as_slice(), path_bits, selected_root.as_slice())', min_count=1)
     v.rewrite_re('R6', r'(add_hash_base_coeffs_overwrite\(\s*circuit,\s*&permutation_config,\s*)&all_base_coeffs', r'\1all_base_coeffs.as_slice()', min_count=1)
-    u.text('verus! {\n/// p3-merkle-tree geometry checks of a batch opening: equal heights inside one power-of-two bucket, index below the tallest height\npub uninterp spec fn native_geometry_ok<F: Field>(dims: Seq<Dimensions>, index_bits: Seq<F>) -> bool;\n/// every per-matrix salt of a hiding MMCS opening has SALT_ELEMS elements\npub uninterp spec fn salt_lengths_are_the_configured_ones(salts: Option<Seq<Seq<ExprId>>>) -> bool;\n}')
+    u.text('verus! {\n/// p3-merkle-tree geometry checks of a batch opening: equal heights inside one power-of-two bucket, index below the tallest height\npub uninterp spec fn native_geometry_ok<F: Field>(dims: Seq<Dimensions>, index_bits: Seq<F>) -> bool;\n/// every per-matrix salt of a hiding MMCS opening has SALT_ELEMS elements\npub uninterp spec fn salt_lengths_are_the_configured_ones(salts: Option<Seq<Vec<ExprId>>>) -> bool;\n}')
     u.text('''verus! {
 #[verifier::external_body]
 pub fn empty_digests(n: usize) -> (r: Vec<Vec<Target>>) ensures r@.len() == n, forall|i: int| 0 <= i < n ==> (#[trigger] r@[i])@.len() == 0 { unimplemented!() }
